@@ -1,7 +1,471 @@
 package main
 
+// Contact queries under the redaction policy (last clause of C19).
+//
+// Direct oracle (from the sentence, independent of the Coq model), on the real contactql.ParseQuery / EvaluateQuery:
+//   - under the policy a query with a condition on a URN property (a scheme, the urn attribute, urns.<scheme>) that
+//     carries a value is rejected, whatever else the query contains and however it is combined;
+//   - a query that is accepted under the policy contains no URN condition with a value (so bare numbers / URNs /
+//     phone numbers did not become URN conditions) and evaluates equally on twin contacts;
+//   - without the policy the same query texts do see the URNs: "<scheme> = <path of A>" holds for A, not for B.
+// Correspondence: every generated query inside the modelled fragment is also given to the model as the parse tree
+// it was printed from (cases CQuery), and URN-only queries are evaluated by both (cases CEval).
+
 import (
+	"encoding/json"
+	"fmt"
+	"regexp"
+	"strconv"
+	"strings"
+
+	"github.com/nyaruka/gocommon/urns"
+	"github.com/nyaruka/goflow/assets"
+	"github.com/nyaruka/goflow/assets/static"
+	"github.com/nyaruka/goflow/contactql"
+	"github.com/nyaruka/goflow/envs"
+	"github.com/nyaruka/goflow/flows"
+	"github.com/nyaruka/goflow/flows/engine"
+	"github.com/nyaruka/goflow/utils"
+
 	"verifharness/pkg/hx"
 )
 
-func runQueries(o *hx.Opts, r *hx.Rand, res *hx.Result, em *emitter) {}
+// generated parse tree (what the text is printed from)
+type qtree struct {
+	Kind  string   `json:"kind"` // implicit cond and or group
+	Prop  string   `json:"prop,omitempty"`
+	Op    string   `json:"op,omitempty"`
+	Value string   `json:"value"`
+	Kids  []*qtree `json:"kids,omitempty"`
+	Form  string   `json:"form,omitempty"` // scheme | urn-attribute | dotted-urns | name | field | dotted-field | unknown-prefix
+}
+
+var qOps = []string{"=", "!=", "~", ">", ">=", "<", "<=", "has", "is", "HAS"}
+
+func canonOp(op string) string {
+	switch strings.ToLower(op) {
+	case "has":
+		return "~"
+	case "is":
+		return "="
+	}
+	return op
+}
+
+var simpleText = regexp.MustCompile(`^[A-Za-z0-9_.\-+/'@:]+$`)
+
+func quoteLit(v string, forceQuote bool) string {
+	low := strings.ToLower(v)
+	if !forceQuote && simpleText.MatchString(v) && low != "and" && low != "or" && low != "has" && low != "is" {
+		return v
+	}
+	return contactql.QuoteValue(v)
+}
+
+func (t *qtree) text(top bool) string {
+	switch t.Kind {
+	case "implicit":
+		return quoteLit(t.Value, false)
+	case "cond":
+		return t.Prop + " " + t.Op + " " + quoteLit(t.Value, t.Value == "" || t.Form == "")
+	case "group":
+		return "(" + t.Kids[0].text(true) + ")"
+	case "and", "or", "juxt":
+		sep := " AND "
+		if t.Kind == "or" {
+			sep = " OR "
+		} else if t.Kind == "juxt" {
+			sep = " "
+		}
+		s := t.Kids[0].text(false) + sep + t.Kids[1].text(false)
+		if !top {
+			s = "(" + s + ")"
+		}
+		return s
+	}
+	return ""
+}
+
+// does the tree contain a URN condition with a value, and in which syntactic form (first one)
+func (t *qtree) urnValueForm() string {
+	switch t.Kind {
+	case "cond":
+		if t.Value != "" && (t.Form == "scheme" || t.Form == "urn-attribute" || t.Form == "dotted-urns") {
+			return t.Form
+		}
+	default:
+		for _, k := range t.Kids {
+			if f := k.urnValueForm(); f != "" {
+				return f
+			}
+		}
+	}
+	return ""
+}
+
+func (t *qtree) onlyURNConds() bool {
+	switch t.Kind {
+	case "cond":
+		return t.Form == "scheme" || t.Form == "urn-attribute" || t.Form == "dotted-urns"
+	case "implicit":
+		return false
+	}
+	for _, k := range t.Kids {
+		if !k.onlyURNConds() {
+			return false
+		}
+	}
+	return true
+}
+
+var qSchemes = []string{"tel", "facebook", "telegram", "twitterid", "mailto", "whatsapp", "ext", "twitter"}
+
+func mixCase(r *hx.Rand, s string) string {
+	if !r.Chance(1, 4) {
+		return s
+	}
+	b := []byte(s)
+	for i := range b {
+		if b[i] >= 'a' && b[i] <= 'z' && r.Bool() {
+			b[i] -= 32
+		}
+	}
+	return string(b)
+}
+
+func genQuery(r *hx.Rand, depth int, vals []string) *qtree {
+	if depth > 0 && r.Chance(2, 5) {
+		k := hx.Pick(r, []string{"and", "or", "juxt", "group"})
+		if k == "group" {
+			return &qtree{Kind: "group", Kids: []*qtree{genQuery(r, depth-1, vals)}}
+		}
+		return &qtree{Kind: k, Kids: []*qtree{genQuery(r, depth-1, vals), genQuery(r, depth-1, vals)}}
+	}
+	val := func() string { return hx.Pick(r, vals) }
+	switch r.Intn(10) {
+	case 0, 1: // scheme = value
+		return &qtree{Kind: "cond", Prop: mixCase(r, hx.Pick(r, qSchemes)), Op: hx.Pick(r, qOps), Value: val(), Form: "scheme"}
+	case 2: // urn attribute
+		return &qtree{Kind: "cond", Prop: mixCase(r, "urn"), Op: hx.Pick(r, qOps), Value: val(), Form: "urn-attribute"}
+	case 3, 4: // urns.<scheme>
+		return &qtree{Kind: "cond", Prop: mixCase(r, "urns."+hx.Pick(r, qSchemes)), Op: hx.Pick(r, qOps), Value: val(), Form: "dotted-urns"}
+	case 5:
+		if r.Bool() {
+			return &qtree{Kind: "cond", Prop: "name", Op: "~", Value: hx.Pick(r, []string{"bob", "ann lee", "x"}), Form: "name"}
+		}
+		return &qtree{Kind: "cond", Prop: "name", Op: hx.Pick(r, []string{"=", "!="}), Value: hx.Pick(r, []string{"Bob", "", "ann"}), Form: "name"}
+	case 6:
+		if r.Bool() {
+			return &qtree{Kind: "cond", Prop: "fields.age", Op: hx.Pick(r, []string{"=", ">", "<="}), Value: hx.Pick(r, []string{"18", "3"}), Form: "dotted-field"}
+		}
+		return &qtree{Kind: "cond", Prop: "age", Op: hx.Pick(r, []string{"=", ">", "!="}), Value: hx.Pick(r, []string{"18", "3", ""}), Form: "field"}
+	case 7:
+		return &qtree{Kind: "cond", Prop: hx.Pick(r, []string{"foo.tel", "urn.tel", "contact.urn"}), Op: "=", Value: val(), Form: "unknown-prefix"}
+	default: // bare value
+		return &qtree{Kind: "implicit", Value: hx.Pick(r, append([]string{"bob", "12345", "0788123123", "+250788123123", "tel:+250788123123", "ann@example.com",
+			"mailto:ann@example.com", "x", "1234567", "-12-34-56", "twitter:bobby", "007", "Ann Lee"}, vals...))}
+	}
+}
+
+var implicitIsPhone = regexp.MustCompile(`^\+?[\-\d]{4,}$`)
+var cleanPhone = regexp.MustCompile(`[^+\d]+`)
+
+func coqOp(op string) string {
+	return map[string]string{"=": "OpEq", "!=": "OpNe", "~": "OpContains", ">": "OpGt", ">=": "OpGe", "<": "OpLt", "<=": "OpLe"}[canonOp(op)]
+}
+
+// the parse tree as the model's `raw`; ok=false when the text leaves the modelled fragment
+func (t *qtree) coqRaw() string {
+	switch t.Kind {
+	case "implicit":
+		v := t.Value
+		asInt := "None"
+		if n, err := strconv.Atoi(v); err == nil {
+			asInt = "(Some " + coqStr(strconv.Itoa(n)) + ")"
+		}
+		up := "None"
+		if u, _ := urns.Parse(v); u != urns.NilURN {
+			scheme, path, _, _ := u.ToParts()
+			up = "(Some (" + coqStr(scheme) + ", " + coqStr(path) + "))"
+		}
+		pl := "None"
+		if implicitIsPhone.MatchString(v) {
+			pl = "(Some " + coqStr(cleanPhone.ReplaceAllLiteralString(v, "")) + ")"
+		}
+		nt := false
+		for _, tok := range utils.TokenizeStringByUnicodeSeg(v) {
+			if len(tok) >= 2 {
+				nt = true
+			}
+		}
+		return fmt.Sprintf("(RImplicit %s %s %s %s %s)", coqStr(v), asInt, up, pl, hx.Bool(nt))
+	case "cond":
+		return fmt.Sprintf("(RCond %s %s %s)", coqStr(strings.ToLower(t.Prop)), coqOp(t.Op), coqStr(t.Value))
+	case "group":
+		return "(RGroup " + t.Kids[0].coqRaw() + ")"
+	case "or":
+		return "(ROr " + t.Kids[0].coqRaw() + " " + t.Kids[1].coqRaw() + ")"
+	default:
+		return "(RAnd " + t.Kids[0].coqRaw() + " " + t.Kids[1].coqRaw() + ")"
+	}
+}
+
+var modelledErr = map[string]string{
+	contactql.ErrRedactedURNs: "ErrRedactedURNs", contactql.ErrUnknownPropertyType: "ErrUnknownPropertyType",
+	contactql.ErrInvalidPartialURN: "ErrInvalidPartialURN", contactql.ErrUnsupportedComparison: "ErrUnsupportedComparison",
+}
+
+func errCode(err error) string {
+	if err == nil {
+		return ""
+	}
+	if qe, ok := err.(*contactql.QueryError); ok {
+		return qe.Code()
+	}
+	return "not-a-query-error"
+}
+
+func leavesOf(n contactql.QueryNode, out *[]*contactql.Condition) {
+	switch t := n.(type) {
+	case *contactql.Condition:
+		*out = append(*out, t)
+	case *contactql.BoolCombination:
+		for _, c := range t.Children() {
+			leavesOf(c, out)
+		}
+	}
+}
+
+func coqLeaf(c *contactql.Condition) string {
+	pt := map[contactql.PropertyType]string{contactql.PropertyTypeAttribute: "PAttribute", contactql.PropertyTypeURN: "PURN", contactql.PropertyTypeField: "PField"}[c.PropertyType()]
+	if pt == "" {
+		pt = "PAttribute"
+	}
+	return fmt.Sprintf("(%s, %s, %s, %s)", pt, coqStr(c.PropertyKey()), coqOp(string(c.Operator())), coqStr(c.Value()))
+}
+
+func isURNCondWithValue(c *contactql.Condition) bool {
+	isURN := c.PropertyType() == contactql.PropertyTypeURN || (c.PropertyType() == contactql.PropertyTypeAttribute && c.PropertyKey() == contactql.AttributeURN)
+	return isURN && c.Value() != ""
+}
+
+const queryAssets = `{
+  "channels": [{"uuid": "c0000000-0000-4000-8000-00000000000a", "name": "Android", "address": "+17036975131", "schemes": ["tel"], "roles": ["send", "receive"], "country": "US"}],
+  "fields": [{"uuid": "d66a7823-eada-40e5-9a3a-57239d4690bf", "key": "note", "name": "Note", "type": "text"}, {"uuid": "f1b5aea6-6586-41c7-9020-1a6326cc6565", "key": "age", "name": "Age", "type": "number"}],
+  "groups": [{"uuid": "90000000-0000-4000-8000-000000000001", "name": "Testers"}]
+}`
+
+type twinContacts struct {
+	Slots []urnSlot `json:"urn_slots"`
+	Name  string    `json:"name"`
+}
+
+func readQueryContact(sa flows.SessionAssets, tc *twinContacts, side int) *flows.Contact {
+	us := []string{}
+	for i := range tc.Slots {
+		us = append(us, tc.Slots[i].side(side))
+	}
+	m := map[string]any{"uuid": contactUUID, "id": 77, "name": tc.Name, "status": "active", "created_on": "2000-01-01T00:00:00Z", "urns": us,
+		"fields": map[string]any{"age": map[string]any{"text": "23", "number": 23}}}
+	b, _ := json.Marshal(m)
+	c, err := flows.ReadContact(sa, b, func(assets.Reference, error) {})
+	if err != nil {
+		panic("query contact: " + err.Error())
+	}
+	return c
+}
+
+func urnsOfContact(c *flows.Contact) string {
+	var ms []mURN
+	for _, u := range c.URNs() {
+		ms = append(ms, snapURN(u.URN(), u.Channel()))
+	}
+	return hx.List(ms, func(u mURN) string { return u.coq() })
+}
+
+// model qnode of an accepted real query (for CEval)
+func coqNode(n contactql.QueryNode) string {
+	switch t := n.(type) {
+	case *contactql.Condition:
+		l := coqLeaf(t)
+		l = strings.TrimSuffix(strings.TrimPrefix(l, "("), ")")
+		parts := strings.SplitN(l, ", ", 4)
+		return "(QCond " + strings.Join(parts, " ") + ")"
+	case *contactql.BoolCombination:
+		var kids []string
+		for _, c := range t.Children() {
+			kids = append(kids, coqNode(c))
+		}
+		return fmt.Sprintf("(QBool %s [%s])", hx.Bool(t.Operator() == contactql.BoolOperatorAnd), strings.Join(kids, "; "))
+	}
+	return "(QBool true [])"
+}
+
+func asciiLowerSafe(s string) bool {
+	for i := 0; i < len(s); i++ {
+		if s[i] >= 128 {
+			return false
+		}
+	}
+	return s == strings.TrimSpace(s)
+}
+
+func runQueries(o *hx.Opts, r *hx.Rand, res *hx.Result, em *emitter) {
+	src, err := static.NewSource([]byte(queryAssets))
+	if err != nil {
+		panic(err)
+	}
+	envOn := envs.NewBuilder().WithRedactionPolicy(envs.RedactionPolicyURNs).WithDefaultCountry("US").Build()
+	envOff := envs.NewBuilder().WithDefaultCountry("US").Build()
+	sa, err := engine.NewSessionAssets(envOn, src, nil)
+	if err != nil {
+		panic(err)
+	}
+
+	n := o.Count(600, 20000)
+	nRejected, nAccepted, nEval := 0, 0, 0
+	for i := 0; i < n; i++ {
+		rr := r.Fork(fmt.Sprintf("q%d", i))
+		// twin contacts for this query
+		tc := &twinContacts{Name: hx.Pick(rr, []string{"", "Bob", "Ann Lee"})}
+		nslots := rr.Range(0, 3)
+		for j := 0; j < nslots; j++ {
+			scheme := "tel"
+			if rr.Bool() {
+				scheme = hx.Pick(rr, qSchemes)
+			}
+			if scheme == "ext" || scheme == "twitter" {
+				scheme = "telegram"
+			}
+			tc.Slots = append(tc.Slots, genSlot(rr, scheme, "", rr.Intn(len(telStems)), false))
+		}
+		ca, cb := readQueryContact(sa, tc, 0), readQueryContact(sa, tc, 1)
+		// values: empty, junk, and the real paths of side A (so that conditions can actually hit)
+		vals := []string{"", "", "123", "12", "+12065551212", "abc", "1234567"}
+		for _, u := range ca.URNs() {
+			vals = append(vals, u.URN().Path(), u.URN().Path())
+			if len(u.URN().Path()) > 5 {
+				vals = append(vals, u.URN().Path()[2:6])
+			}
+		}
+		var qt *qtree
+		switch {
+		case i == 0:
+			qt = &qtree{Kind: "cond", Prop: "urns.tel", Op: "=", Value: "123", Form: "dotted-urns"} // F15
+		case i == 1:
+			qt = &qtree{Kind: "or", Kids: []*qtree{{Kind: "cond", Prop: "name", Op: "=", Value: "Bob", Form: "name"},
+				{Kind: "group", Kids: []*qtree{{Kind: "cond", Prop: "URNS.Tel", Op: "~", Value: "2065", Form: "dotted-urns"}}}}}
+		case i == 2:
+			qt = &qtree{Kind: "cond", Prop: "tel", Op: "=", Value: "123", Form: "scheme"}
+		case i == 3:
+			qt = &qtree{Kind: "cond", Prop: "urn", Op: "~", Value: "2065", Form: "urn-attribute"}
+		case i == 4:
+			qt = &qtree{Kind: "implicit", Value: "+12065551212"}
+		default:
+			qt = genQuery(rr, rr.Range(0, 3), vals)
+		}
+		text := qt.text(true)
+		form := qt.urnValueForm()
+		input := map[string]any{"kind": "query", "text": text, "tree": qt, "contacts": tc}
+		res.Eval("query:"+text, form != "" || qt.Kind == "implicit")
+		res.Dist("query_urn_value_form=" + map[bool]string{true: form, false: "none"}[form != ""])
+
+		// ---- under the policy
+		qOn, errOn := contactql.ParseQuery(envOn, text, sa)
+		res.OracleChecks++
+		if errCode(errOn) == contactql.ErrSyntax {
+			res.Fail("harness:query-syntax", input, "generated query does not parse: "+errOn.Error())
+			continue
+		}
+		if form != "" {
+			nRejected++
+			if errOn == nil {
+				cls := map[string]string{"scheme": "query-scheme-not-rejected", "urn-attribute": "query-urn-attribute-not-rejected", "dotted-urns": "query-dotted-urns-not-rejected"}[form]
+				res.Fail(cls, input, fmt.Sprintf("under RedactionPolicyURNs the query %q (a condition on URNs with a value) is accepted: %s", text, qOn.String()))
+			}
+		}
+		if errOn == nil {
+			nAccepted++
+			var ls []*contactql.Condition
+			leavesOf(qOn.Root(), &ls)
+			res.OracleChecks++
+			for _, c := range ls {
+				if isURNCondWithValue(c) {
+					res.Fail("query-accepted-has-urn-value:"+string(c.PropertyType())+":"+map[bool]string{true: "implicit", false: "explicit"}[form == ""], input,
+						fmt.Sprintf("under the policy %q is accepted as %s, which compares URN values", text, qOn.String()))
+					break
+				}
+			}
+			res.OracleChecks++
+			ra, rb := contactql.EvaluateQuery(envOn, qOn, ca), contactql.EvaluateQuery(envOn, qOn, cb)
+			if ra != rb {
+				res.Fail("query-accepted-distinguishes-twins", input, fmt.Sprintf("under the policy the accepted query %q is %v on %v and %v on %v", text, ra, ca.URNs().RawURNs(), rb, cb.URNs().RawURNs()))
+			}
+		}
+
+		// ---- correspondence: parse under both policies (no resolver: field conditions are not validated)
+		for _, pol := range []bool{true, false} {
+			env := envOff
+			if pol {
+				env = envOn
+			}
+			raw := qt.coqRaw()
+			if !pol {
+				if num := utils.ParsePhoneNumber(text, env.DefaultCountry()); num != "" {
+					raw = fmt.Sprintf("(RCond \"tel\" OpEq %s)", coqStr(num)) // ParseQuery's rewrite of a bare phone number
+				}
+			}
+			q, err := contactql.ParseQuery(env, text, nil)
+			code := errCode(err)
+			var exp string
+			if err == nil {
+				var ls []*contactql.Condition
+				leavesOf(q.Root(), &ls)
+				exp = fmt.Sprintf("q_err := None; q_leaves := %s", hx.List(ls, coqLeaf))
+			} else if m, ok := modelledErr[code]; ok {
+				exp = fmt.Sprintf("q_err := Some %s; q_leaves := []", m)
+			} else {
+				res.Dist("corr=query-outside-fragment:" + code)
+				continue
+			}
+			em.add(fmt.Sprintf("CQuery {| q_env := %s; q_raw := %s; %s |}", coqEnv(pol, "US"), raw, exp),
+				map[string]any{"kind": "query-parse", "text": text, "redact": pol}, map[string]any{"error": code})
+			res.Dist("corr=query-parse")
+		}
+
+		// ---- without the policy the same texts see the URNs; URN-only queries are also evaluated by the model
+		if qOff, err := contactql.ParseQuery(envOff, text, sa); err == nil {
+			ra, rb := contactql.EvaluateQuery(envOff, qOff, ca), contactql.EvaluateQuery(envOff, qOff, cb)
+			if ra != rb {
+				res.Dist("query_distinguishes_twins_without_policy=yes")
+			}
+			if qt.onlyURNConds() && asciiLowerSafe(text) {
+				nEval++
+				em.add(fmt.Sprintf("CEval {| e_q := %s; e_urns := %s; e_result := %s |}", coqNode(qOff.Root()), urnsOfContact(ca), hx.Bool(ra)),
+					map[string]any{"kind": "query-eval", "text": text, "urns": ca.URNs().RawURNs()}, ra)
+				em.add(fmt.Sprintf("CEval {| e_q := %s; e_urns := %s; e_result := %s |}", coqNode(qOff.Root()), urnsOfContact(cb), hx.Bool(rb)),
+					map[string]any{"kind": "query-eval", "text": text, "urns": cb.URNs().RawURNs()}, rb)
+				res.Dist("corr=query-eval")
+			}
+		}
+		// the statement's last sentence for queries: "<scheme> = <path of A>" is accepted without the policy and
+		// tells A from B
+		if len(tc.Slots) > 0 && tc.Slots[0].A != tc.Slots[0].B {
+			ua := ca.URNs()[0].URN()
+			if ua.Path() != cb.URNs()[0].URN().Path() && simpleText.MatchString(ua.Path()) {
+				t := fmt.Sprintf("%s = %s", ua.Scheme(), contactql.QuoteValue(ua.Path()))
+				res.OracleChecks++
+				q, err := contactql.ParseQuery(envOff, t, sa)
+				if err != nil {
+					res.Fail("query-visible-without-policy:rejected", map[string]any{"kind": "query", "text": t}, "without the policy "+t+" is rejected: "+err.Error())
+				} else if !contactql.EvaluateQuery(envOff, q, ca) || contactql.EvaluateQuery(envOff, q, cb) {
+					res.Fail("query-visible-without-policy:blind", map[string]any{"kind": "query", "text": t, "contacts": tc}, "without the policy "+t+" does not tell the twins apart")
+				}
+				if _, err := contactql.ParseQuery(envOn, t, sa); err == nil {
+					res.Fail("query-scheme-not-rejected", map[string]any{"kind": "query", "text": t}, "under the policy "+t+" is accepted")
+				}
+			}
+		}
+	}
+	res.Notes = append(res.Notes, fmt.Sprintf("%d queries: %d with a URN value (must be rejected), %d accepted under the policy (evaluated on twins), %d URN-only queries evaluated by the model", n, nRejected, nAccepted, nEval))
+}
